@@ -8,6 +8,7 @@ import (
 	"bytes"
 	"fmt"
 	"os"
+	"strings"
 	"time"
 
 	"github.com/nsqio/nsq/nsqd"
@@ -15,7 +16,10 @@ import (
 	"verifharness/nsqdlib"
 )
 
+var errInconclusive = fmt.Errorf("inconclusive: a message timed out again before the harness answered")
+
 type livePlan struct {
+	timeoutRound bool // round 1: do not answer, let msg_timeout requeue the messages, take the redeliveries
 	memq       int64
 	nchan      int
 	k          int // deliveries of each message on each channel
@@ -180,7 +184,7 @@ func publishAll(r *lib.Rand, d *nsqd.NSQD, topic string, bodies [][]byte, fw *fe
 // consumeRound: on one channel, take n messages; then either requeue them all (RDY 0
 // first, so none comes back on this connection) or finish them all; CLS is the barrier
 // that tells every command has been processed.
-func consumeRound(addr string, f feat, topic, channel string, n int, finish bool, reqDelayMs int, noise bool) ([][]byte, error) {
+func consumeRound(addr string, f feat, topic, channel string, n int, finish bool, reqDelayMs int, noise bool, timeoutRedeliver bool) ([][]byte, error) {
 	c, err := dial(addr, f)
 	if err != nil {
 		return nil, err
@@ -211,10 +215,14 @@ func consumeRound(addr string, f feat, topic, channel string, n int, finish bool
 		return nil, err
 	}
 	var raws [][]byte
-	for len(raws) < n || pendingOK > 0 {
+	want := n
+	if timeoutRedeliver {
+		want = 2 * n // every message once, then once more after msg_timeout expired
+	}
+	for len(raws) < want || pendingOK > 0 {
 		ft, data, err := c.readFrame(readDeadline)
 		if err != nil {
-			return raws, fmt.Errorf("after %d of %d messages: %v", len(raws), n, err)
+			return raws, fmt.Errorf("after %d of %d messages: %v", len(raws), want, err)
 		}
 		switch {
 		case ft == 2:
@@ -231,7 +239,11 @@ func consumeRound(addr string, f feat, topic, channel string, n int, finish bool
 	if !finish {
 		buf.WriteString("RDY 0\n")
 	}
-	for _, raw := range raws {
+	answer := raws
+	if timeoutRedeliver && len(raws) == 2*n {
+		answer = raws[n:]
+	}
+	for _, raw := range answer {
 		if len(raw) < 26 {
 			return raws, fmt.Errorf("message frame of %d bytes", len(raw))
 		}
@@ -246,12 +258,16 @@ func consumeRound(addr string, f feat, topic, channel string, n int, finish bool
 		return raws, err
 	}
 	if err := c.expectResponse("CLOSE_WAIT"); err != nil {
+		if timeoutRedeliver && strings.Contains(err.Error(), "_FAILED") {
+			return raws, errInconclusive
+		}
 		return raws, err
 	}
 	return raws, nil
 }
 
 func liveCase(in caseIn, name string, big bool) {
+	forceTimeout := in.Kind == "livetmo"
 	r := lib.NewRand(in.Seed)
 	plan := livePlan{
 		memq:  []int64{0, 0, 1, 2, 10000}[r.Intn(5)],
@@ -268,6 +284,12 @@ func liveCase(in caseIn, name string, big bool) {
 		plan.reqDelayMs = 1 + r.Intn(50)
 	}
 	nmsg := 1 + r.Intn(8)
+	if !big && (r.Chance(5) || forceTimeout) {
+		// the in-flight timeout as the requeue: one channel, a 1 s msg_timeout on round 1
+		plan.timeoutRound = true
+		plan.nchan = 1
+		nmsg = 1 + r.Intn(4)
+	}
 	if big {
 		plan.nchan, plan.k = 2, 2
 		plan.restartAt = r.Intn(2)
@@ -320,7 +342,16 @@ func liveCase(in caseIn, name string, big bool) {
 				f.HB = 1000
 			}
 			t0 := time.Now()
-			raws, err := consumeRound(d.RealTCPAddr().String(), f, topic, fmt.Sprintf("ch%d", c), nmsg, round == plan.k, plan.reqDelayMs, r.Chance(25))
+			tr := plan.timeoutRound && round == 1
+			if tr {
+				f.MsgTO = 1000
+			}
+			raws, err := consumeRound(d.RealTCPAddr().String(), f, topic, fmt.Sprintf("ch%d", c), nmsg, round == plan.k, plan.reqDelayMs, r.Chance(25), tr)
+			if err == errInconclusive {
+				inconclusive++
+				d.Exit()
+				return
+			}
 			for _, raw := range raws {
 				dels = append(dels, del{c, raw})
 			}
@@ -354,7 +385,11 @@ func liveCase(in caseIn, name string, big bool) {
 	if perr != nil {
 		plan.k = 1
 	}
-	tags = append(tags, "kind=live", fmt.Sprintf("memq=%d", plan.memq), fmt.Sprintf("nchan=%d", plan.nchan), fmt.Sprintf("deliveries_per_msg=%d", plan.k),
+	kdel := plan.k
+	if plan.timeoutRound && perr == nil {
+		kdel++
+	}
+	tags = append(tags, fmt.Sprintf("timeout_requeue=%v", plan.timeoutRound), "kind=live", fmt.Sprintf("memq=%d", plan.memq), fmt.Sprintf("nchan=%d", plan.nchan), fmt.Sprintf("deliveries_per_msg=%d", kdel),
 		fmt.Sprintf("restart=%v", restarted), fmt.Sprintf("file_roll=%v", plan.rollBytes > 0), fmt.Sprintf("req_deferred=%v", plan.reqDelayMs > 0 && plan.k > 1))
 	if big {
 		tags = append(tags, "live=big-bodies")
@@ -383,7 +418,7 @@ func liveCase(in caseIn, name string, big bool) {
 			parts = append(parts, fmt.Sprintf("(%s, %s, %s, %s, %s)", lib.CoqN(uint64(dl.ch)), lib.CoqZ(ts), lib.CoqN(att), lib.CoqBytes(dl.raw[10:26]), lib.CoqBytes(k)))
 		}
 		out.Emit(lib.Case{Name: name,
-			Coq: fmt.Sprintf("(J07.CLiveDigest %s %s %s %s %s %s %s)", lib.CoqBytesList(pubs), lib.CoqN(uint64(plan.nchan)), lib.CoqN(uint64(plan.k)),
+			Coq: fmt.Sprintf("(J07.CLiveDigest %s %s %s %s %s %s %s)", lib.CoqBytesList(pubs), lib.CoqN(uint64(plan.nchan)), lib.CoqN(uint64(kdel)),
 				lib.CoqZ(tlo), lib.CoqZ(thi), lib.CoqList(parts), lib.CoqBool(equal)),
 			Input: in, Tags: tags, Nontrivial: true, Obs: map[string]interface{}{"deliveries": len(dels), "bytes_equal": equal}})
 		return
@@ -393,7 +428,7 @@ func liveCase(in caseIn, name string, big bool) {
 		parts = append(parts, fmt.Sprintf("(%s, %s)", lib.CoqN(uint64(dl.ch)), lib.CoqBytes(dl.raw)))
 	}
 	out.Emit(lib.Case{Name: name,
-		Coq: fmt.Sprintf("(J07.CLive %s %s %s %s %s %s)", lib.CoqBytesList(bodies), lib.CoqN(uint64(plan.nchan)), lib.CoqN(uint64(plan.k)),
+		Coq: fmt.Sprintf("(J07.CLive %s %s %s %s %s %s)", lib.CoqBytesList(bodies), lib.CoqN(uint64(plan.nchan)), lib.CoqN(uint64(kdel)),
 			lib.CoqZ(tlo), lib.CoqZ(thi), lib.CoqList(parts)),
 		Input: in, Tags: tags, Nontrivial: true, Obs: map[string]interface{}{"deliveries": len(dels), "published": len(bodies)}})
 }
